@@ -8,6 +8,7 @@ import Jrpc.Reader
 import Jrpc.Locks
 import Jrpc.Stream
 import Jrpc.Corr
+import Jrpc.Cancel
 /-
   Jrpc.Ops — dispatch of driver operations onto the model's executable definitions.
 -/
@@ -420,6 +421,22 @@ def opOneShot (j : Json) : R Json := do
     | none => false
   return Json.mkObj [("accepted", acc)]
 
+/-- op "cancel": the server-role events of one connection; answers which handlers' contexts are cancelled. -/
+def opCancel (j : Json) : R Json := do
+  let es ← (arrD j "events").mapM (fun e => do
+    match (← str e "e") with
+    | "call" => return Cancel.Ev.call (← nat e "h") (← nid (← fld e "id"))
+    | "cancelFrame" => return Cancel.Ev.cancelFrame (← nid (← fld e "id")) (← bool e "found")
+    | "done" => return Cancel.Ev.done (← nat e "h") (← bool e "keep")
+    | "sweep" => return Cancel.Ev.sweep
+    | "connEnd" => return Cancel.Ev.connEnd
+    | x => throw s!"bad cancel event {x}")
+  let (s, refused) := replay Cancel.step? {} es
+  let hs ← (arrD j "handlers").mapM (·.getNat?)
+  return Json.mkObj [("accepted", refused.isNone), ("refusedAt", optJ (fun (n : Nat) => (n : Json)) refused),
+    ("cancelled", Json.arr ((hs.filter (fun h => s.ctxCancelled h)).map (fun (n : Nat) => (n : Json))).toArray),
+    ("connDone", s.connDone)]
+
 def run (j : Json) : R Json := do
   match (← str j "op") with
   | "http" => opHttp j
@@ -436,6 +453,7 @@ def run (j : Json) : R Json := do
   | "stream" => opStream j
   | "corr" => opCorr j
   | "oneshot" => opOneShot j
+  | "cancel" => opCancel j
   | "authhttp" => opAuthHttp j
   | op => throw s!"unknown op {op}"
 
